@@ -80,7 +80,8 @@ def run(c, tag, events, with_model=True):
     first = json.loads(evs[min(3, len(evs) - 1)])
     if all(not json.loads(l)["memo"] for l in evs[:20]):
         raise vf.ToolError("the memo hook reported nothing: is /repo built with the `verif` feature hooks (memo_store)?")
-    tv = vf.validate_trace("Trace_Peg", tr, "peg-" + c.pid, chunk_events=max(40, len(evs) // 12 + 1), par=12)
+    consts = "CONSTANT CheckDemanded = %s\n" % ("TRUE" if tag == "C17" else "FALSE")
+    tv = vf.validate_trace("Trace_Peg", tr, "peg-" + c.pid, chunk_events=max(40, len(evs) // 12 + 1), par=12, consts=consts)
     c.add_trace(tv, "Trace_Peg")
     info["trace"] = {"inputs": len(evs), "stored_results": sum(len(json.loads(l)["memo"]) for l in evs), "longest_input_tokens": max(len(json.loads(l)["toks"]) for l in evs)}
     c.sample({"toks": first["toks"], "errs": first["errs"], "stored_results": len(first["memo"])})
@@ -109,7 +110,7 @@ def run(c, tag, events, with_model=True):
             pe["memo"][k]["next"] -= 1
         ptr = os.path.join(d, "probe-%s.ndjson" % c.pid)
         open(ptr, "w").write(json.dumps(pe) + "\n")
-        pv = vf.validate_trace("Trace_Peg", ptr, "peg-probe-" + c.pid, par=1)
+        pv = vf.validate_trace("Trace_Peg", ptr, "peg-probe-" + c.pid, par=1, consts=consts)
         c.probe("packrat trace: corrupted %s" % {"C17": "memo (key stored twice)", "C15": "diagnostic list", "C14": "outcome (crash)"}.get(tag, "stored result"),
                 any('"%s"' % tag in x["what"] for x in pv["rejects"]))
     c.assumptions += ["GramPeg's clauses are a transcription of the parsing functions' control flow (what is consumed, where a function commits, how it re-synchronises); "
